@@ -46,6 +46,7 @@ var (
 	basePort = flag.Int("base_port", 23000, "first port")
 	outPath  = flag.String("out", "", "JSON lines output")
 	modFlag  = flag.Bool("mod", false, "inject a message of death (PANIC command) in every round (property C07)")
+	lagFlag  = flag.Bool("lag", false, "a follower is down while the others commit more entries than raft keeps in its log: it must be brought back by a snapshot (property C05)")
 	authFlag = flag.Bool("auth", false, "probe every non-public route of the real binaries without the network password (property C11)")
 	sgFlag   = flag.Bool("safeguard", false, "restart a node against peers with skewed clocks (property C19): it must refuse before raft talks to anybody")
 )
@@ -535,6 +536,10 @@ func main() {
 		rep.inconclusive("could not post the configuration")
 		return
 	}
+	if *lagFlag {
+		c.longOutage(*seedFlag)
+		return
+	}
 	for r := 0; r < *rounds; r++ {
 		c.round(*seedFlag*1009+int64(r), r)
 	}
@@ -543,6 +548,213 @@ func main() {
 		m, _ := filepath.Glob(filepath.Join(n.dir, "race*"))
 		rep.Obs("race-log-files", len(m))
 	}
+}
+
+// ---------------------------------------------------------------- C05: a follower that was away for longer than the log reaches
+
+// longOutage: one follower is killed, the rest of the network acknowledges more messages than
+// raft retains log entries (10240), snapshots are taken (the log prefix is dropped), the
+// follower comes back. The only way to bring it up to date is a snapshot sent by the leader;
+// afterwards it must deliver every acknowledged message like the others.
+func (c *cluster) longOutage(seed int64) {
+	rep := c.rep
+	rng := mrand.New(mrand.NewSource(seed))
+	viol := func(key, what string, w map[string]interface{}) {
+		if w == nil {
+			w = map[string]interface{}{}
+		}
+		w["seed"] = seed
+		rep.violation("C05", key, what, w)
+	}
+	obs := c.createSession(rng)
+	if obs == nil {
+		rep.inconclusive("long outage: cannot create the observer session")
+		return
+	}
+	dl := time.Now().Add(30 * time.Second)
+	var cm uint64 = uint64(seed&0xffff)<<24 + 1
+	next := func() uint64 { return atomic.AddUint64(&cm, 1) }
+	c.post(obs, "NICK lagobs", next(), 0, dl)
+	c.post(obs, "USER u 0 * :r", next(), 0, dl)
+	c.post(obs, "JOIN #c", next(), 0, dl)
+	const workers = 12
+	var senders []*session
+	for i := 0; i < workers; i++ {
+		s := c.createSession(rng)
+		if s == nil {
+			rep.inconclusive("long outage: cannot create the sender sessions")
+			return
+		}
+		c.post(s, fmt.Sprintf("NICK lag%d", i), next(), i, dl)
+		c.post(s, "USER u 0 * :r", next(), i, dl)
+		c.post(s, "JOIN #c", next(), i, dl)
+		senders = append(senders, s)
+	}
+	leader := c.leader()
+	var away *node
+	for _, n := range c.nodes {
+		if n != leader {
+			away = n
+			break
+		}
+	}
+	if leader == nil || away == nil {
+		rep.inconclusive("long outage: no leader")
+		return
+	}
+	away.signal(syscall.SIGKILL)
+	total := 10240 + 400 + rng.Intn(300)
+	per := total/workers + 1
+	acked := make([][]string, workers)
+	var wg sync.WaitGroup
+	t0 := time.Now()
+	for i := range senders {
+		i := i
+		wg.Add(1)
+		go func() {
+			defer wg.Done()
+			deadline := time.Now().Add(8 * time.Minute)
+			for k := 0; k < per && time.Now().Before(deadline); k++ {
+				p := fmt.Sprintf("pl-lag-%d-%d", i, k)
+				// only the nodes that are up
+				start := leader.idx
+				if st := c.post(senders[i], "PRIVMSG #c :"+p, next(), start, time.Now().Add(20*time.Second)); st.acked {
+					acked[i] = append(acked[i], p)
+				}
+			}
+		}()
+	}
+	wg.Wait()
+	nAcked := 0
+	for _, a := range acked {
+		nAcked += len(a)
+	}
+	rep.Obs("lag.acknowledged-while-follower-away", nAcked)
+	rep.Obs("lag.posting-seconds", int(time.Since(t0).Seconds()))
+	if nAcked < 10240+100 {
+		rep.inconclusive(fmt.Sprintf("long outage: only %d messages were acknowledged in %v; raft would still bring the follower back from its log", nAcked, time.Since(t0).Round(time.Second)))
+		return
+	}
+	// snapshots on the nodes that are up: raft drops the log prefix the follower would need
+	for _, n := range c.nodes {
+		if n == away {
+			continue
+		}
+		req, _ := http.NewRequest("GET", "https://"+n.addr()+"/snapshot", nil)
+		req.SetBasicAuth("robustirc", password)
+		if resp, err := c.hc.Do(req); err == nil {
+			resp.Body.Close()
+		}
+	}
+	time.Sleep(time.Second)
+	if err := c.startNode(away, ""); err != nil {
+		rep.broken(err.Error())
+		return
+	}
+	// a client follows its stream on the returning node from the moment it listens again: its
+	// request is open while the node replaces its state with the snapshot
+	lctx, lcancel := context.WithCancel(context.Background())
+	defer lcancel()
+	var lmu sync.Mutex
+	var liveMsgs []msg
+	liveDone := make(chan struct{})
+	go func() {
+		defer close(liveDone)
+		last := "0.0"
+		for lctx.Err() == nil {
+			c.read(lctx, away, obs, last, func(m msg) bool {
+				lmu.Lock()
+				liveMsgs = append(liveMsgs, m)
+				lmu.Unlock()
+				last = fmt.Sprintf("%d.%d", m.Id.Id, m.Id.Reply)
+				return strings.Contains(m.Data, "pl-lag-SENTINEL")
+			})
+			lmu.Lock()
+			n := len(liveMsgs)
+			done := n > 0 && strings.Contains(liveMsgs[n-1].Data, "pl-lag-SENTINEL")
+			lmu.Unlock()
+			if done {
+				return
+			}
+			time.Sleep(50 * time.Millisecond)
+		}
+	}()
+	if !c.waitHealthy(120*time.Second, 3) {
+		st, _ := c.status(away)
+		lst, _ := c.status(c.leader())
+		viol("lagging-node-never-catches-up", fmt.Sprintf("node %d was away while %d messages were acknowledged and the others compacted their logs; 120s after its restart it has not caught up (its status: %+v, leader: %+v)", away.idx, nAcked, st, lst),
+			map[string]interface{}{"log_tail": tailFile(filepath.Join(away.dir, "stderr.txt"))})
+		return
+	}
+	sentinel := "pl-lag-SENTINEL"
+	if st := c.post(senders[0], "PRIVMSG #c :"+sentinel, next(), 0, time.Now().Add(60*time.Second)); !st.acked {
+		rep.inconclusive("long outage: the sentinel was not acknowledged")
+		return
+	}
+	// (a second request for the same session supersedes the first: the live reader must have
+	// finished before the stream is fetched again)
+	select {
+	case <-liveDone:
+	case <-time.After(90 * time.Second):
+		lcancel()
+		<-liveDone
+		lmu.Lock()
+		nl := len(liveMsgs)
+		lmu.Unlock()
+		viol("sentinel-not-delivered", fmt.Sprintf("the request that was open on the returning node while it installed the snapshot (and its resumes) received %d messages but never the acknowledged sentinel", nl), nil)
+		return
+	}
+	msgs, found := c.fetchAll(away, obs, sentinel, 120*time.Second)
+	if !found {
+		viol("sentinel-not-delivered", fmt.Sprintf("the node that was brought back by a snapshot does not deliver the acknowledged sentinel (stream of %d messages)", len(msgs)), nil)
+		return
+	}
+	seen := map[string]int{}
+	for _, m := range msgs {
+		if p, ok := payloadOf(m.Data); ok {
+			seen[p]++
+		}
+	}
+	lost, dup := 0, 0
+	for i := range acked {
+		for _, p := range acked[i] {
+			switch {
+			case seen[p] == 0:
+				lost++
+			case seen[p] > 1:
+				dup++
+			}
+		}
+	}
+	if lost > 0 {
+		viol("acknowledged-message-lost", fmt.Sprintf("the node that was brought back by a snapshot does not deliver %d of %d acknowledged messages", lost, nAcked), nil)
+	}
+	if dup > 0 {
+		viol("message-duplicated", fmt.Sprintf("the node that was brought back by a snapshot delivers %d acknowledged messages more than once", dup), nil)
+	}
+	// the stream that was followed live across the snapshot installation equals the fetched one
+	lmu.Lock()
+	var lv, fv []string
+	for _, m := range liveMsgs {
+		lv = append(lv, fmt.Sprintf("%d.%d|%s", m.Id.Id, m.Id.Reply, mask003(m.Data)))
+	}
+	lmu.Unlock()
+	for _, m := range msgs {
+		fv = append(fv, fmt.Sprintf("%d.%d|%s", m.Id.Id, m.Id.Reply, mask003(m.Data)))
+	}
+	if strings.Join(lv, "\x00") != strings.Join(fv, "\x00") {
+		d := "one is a prefix of the other"
+		for i := 0; i < len(lv) && i < len(fv); i++ {
+			if lv[i] != fv[i] {
+				d = fmt.Sprintf("first difference at position %d: live %.80q, fetched %.80q", i, lv[i], fv[i])
+				break
+			}
+		}
+		viol("resumed-stream-differs", fmt.Sprintf("the stream followed live on the returning node (%d messages, request open while the snapshot was installed) differs from the stream fetched afterwards (%d messages): %s", len(lv), len(fv), d), nil)
+	}
+	rep.Obs("lag.messages-followed-live-across-the-installation", len(lv))
+	rep.Case("lag|follower-brought-back-by-snapshot", nAcked)
+	rep.Obs("lag.messages-fetched-from-the-returned-node", len(msgs))
 }
 
 // ---------------------------------------------------------------- C11: non-public routes of the real binary
